@@ -99,6 +99,7 @@ package canary
 //@   check safety
 //@   requires canaryOK(c) && ctableOK(c) && is4(iph.Src) && is4(iph.Dst) && len(iph.Src) == 16 && len(iph.Dst) == 16
 //@   ensures ctableOK(c)
+//@   ensures [established] result == nil && state != nil && !fresh(state) && old(state.State) == SocketSynReceived && hdr.Ctrl & (tcp.SYN|tcp.RST|tcp.FIN) == 0 && hdr.Ctrl & tcp.ACK == tcp.ACK && hdr.AckNum == old(state.SendNext) ==> state.State == SocketEstablished
 //@   callpre (*Canary).send: flags == tcp.SYN|tcp.ACK ==> state.RecvNext == hdr.SeqNum + 1 && state.SendNext == state.InitialSendSequenceNumber + 1 && state.SendUnacknowledged == state.InitialSendSequenceNumber
 //@   callpre (*Canary).send: flags == tcp.ACK && hdr.Ctrl & tcp.FIN == 0 && !fresh(state) ==> state.RecvNext == old(state.RecvNext) + uint32(len(hdr.Payload))
 //@   callpre (*Canary).send: flags == tcp.FIN|tcp.ACK ==> state.RecvNext == hdr.SeqNum + uint32(len(hdr.Payload)) + 1
